@@ -9,8 +9,11 @@ import json; m=json.load(open('/verif/seeded/$t/meta.json')); print(' '.join(k f
   D=/dev/shm/sr-$$; rm -rf $D; mkdir -p $D; git -C /repo archive HEAD | tar -x -C $D
   (cd $D && git apply --unsafe-paths --directory=$D /verif/seeded/$t/patch.diff 2>/dev/null || patch -p1 -s < /verif/seeded/$t/patch.diff) || { echo "$t: PATCH FAILED"; continue; }
   for id in $ids; do
-    n=$(VT_REPO=$D VT_EVIDENCE_DIR=$D/ev VT_REPLAY_DIR=$D/rp ./check $id --tier quick 2>&1 | grep -c "^VIOLATION")
-    if [ "$n" -gt 0 ]; then echo "$t: $id still catches it ($n)"; else echo "$t: REGRESSION $id no longer catches it"; fi
+    s0=$(date +%s)
+    n=$(VT_REPO=$D VT_EVIDENCE_DIR=$D/ev VT_REPLAY_DIR=$D/rp timeout ${SR_TIMEOUT:-1500} ./check $id --tier quick 2>&1 | grep -c "^VIOLATION")
+    el=$(( $(date +%s) - s0 ))
+    if [ "$el" -ge ${SR_TIMEOUT:-1500} ]; then echo "$t: TIMEOUT $id (${el}s)"; ps -eo pid,args | grep "[/]check $id --tier" | awk '{print $1}' | xargs -r kill 2>/dev/null
+    elif [ "$n" -gt 0 ]; then echo "$t: $id still catches it ($n; ${el}s)"; else echo "$t: REGRESSION $id no longer catches it"; fi
   done
   rm -rf $D
 done
